@@ -19,7 +19,7 @@ LEVEL = "model_checking"
 LMENU = [1e-2, 1e-1, 1.0, 10.0, 100.0]
 TAILF = [0.9, 1.02, 3.0, 40.0]          # tail = f * L (1/2 + s) / r ; f < 1 is inadmissible
 RMENU = [0.3, 0.5, 0.75]
-SMENU = [0.05, 0.1, 0.3]
+SMENU = [0.05, 0.1, 0.3, 0.6, 0.95]          # the constructor asks for 0 < smoothing, its documentation for "smaller than 1"
 CMENU = [0.0, -2.5, 1.75]                # wall centre in units of L
 TMENU = [1e-2, 0.1, 1.0, 10.0, 100.0]
 
